@@ -598,6 +598,12 @@ func checkContent(h *History, vs []*opView) {
 		// upstream produced this serial); otherwise it came from the cache.
 		fresh := !firstSeen[key]
 		firstSeen[key] = true
+		if rs := h.RP.Cache.Redis; rs != nil && rs.SlowGetUs[1] > 0 {
+			// a lookup that takes seconds may come back with an entry that was
+			// fetched (by a background refresh, say) after the query was sent:
+			// "sent before the upstream saw the exchange" proves nothing then
+			fresh = false
+		}
 		for _, rp := range h.Ups[meta.Up].Replies {
 			if rp.Token == meta.Token && rp.Serial == meta.Serial && rp.Key == peers.KeyOf(v.lower, meta.Class, meta.Type) {
 				// the requester sent its query before the upstream saw the
